@@ -115,3 +115,76 @@ func (p *PFCPIface) VerifUP4Occupancy() map[string]int {
 	}
 	return out
 }
+
+// VerifUP4ShrinkIDPools leaves only the first keep free tunnel-peer and
+// application ids in their pools (a deployment that has used up most of its
+// ids), so that a wrongly released id comes round again after a few sessions.
+// Called before the first session.
+func (p *PFCPIface) VerifUP4ShrinkIDPools(keep int) bool {
+	u, ok := p.upf.datapath.(*UP4)
+	if !ok {
+		return false
+	}
+	u.tunnelPeerMu.Lock()
+	if len(u.tunnelPeerIDsPool) > keep {
+		u.tunnelPeerIDsPool = u.tunnelPeerIDsPool[:keep:keep]
+	}
+	u.tunnelPeerMu.Unlock()
+	u.applicationMu.Lock()
+	if len(u.applicationIDsPool) > keep {
+		u.applicationIDsPool = u.applicationIDsPool[:keep:keep]
+	}
+	u.applicationMu.Unlock()
+	return true
+}
+
+// VerifUP4FreeIDs returns the ids currently in the free pools of the UP4
+// plug-in, per id space. Read at quiescence only.
+func (p *PFCPIface) VerifUP4FreeIDs() map[string][]uint64 {
+	u, ok := p.upf.datapath.(*UP4)
+	if !ok {
+		return nil
+	}
+	out := map[string][]uint64{}
+	for _, id := range u.tunnelPeerIDsPool {
+		out["tunnel-peer"] = append(out["tunnel-peer"], uint64(id))
+	}
+	for _, id := range u.applicationIDsPool {
+		out["application"] = append(out["application"], uint64(id))
+	}
+	conv := func(v interface{}) (uint64, bool) {
+		switch x := v.(type) {
+		case uint64:
+			return x, true
+		case uint32:
+			return uint64(x), true
+		case int:
+			return uint64(x), true
+		case uint8:
+			return uint64(x), true
+		}
+		return 0, false
+	}
+	if u.appMeterCellIDsPool != nil {
+		for _, v := range u.appMeterCellIDsPool.ToSlice() {
+			if id, ok := conv(v); ok {
+				out["app-meter-cell"] = append(out["app-meter-cell"], id)
+			}
+		}
+	}
+	if u.sessMeterCellIDsPool != nil {
+		for _, v := range u.sessMeterCellIDsPool.ToSlice() {
+			if id, ok := conv(v); ok {
+				out["session-meter-cell"] = append(out["session-meter-cell"], id)
+			}
+		}
+	}
+	if len(u.counters) > 0 && u.counters[0].counterIDsPool != nil {
+		for _, v := range u.counters[0].counterIDsPool.ToSlice() {
+			if id, ok := conv(v); ok {
+				out["counter-cell"] = append(out["counter-cell"], id)
+			}
+		}
+	}
+	return out
+}
